@@ -44,6 +44,7 @@ func run(e *Env) error {
 				if err != nil {
 					return err
 				}
+				p.EmptyBalancesFirst = k == 0
 				p.Run(e.N(10, 30))
 				okAll := true
 				for _, st := range p.Steps {
